@@ -177,3 +177,75 @@ Proof.
   - apply HR.
   - repeat constructor. exact Ht.
 Qed.
+
+(* ---------- facts carried along a round trip ---------- *)
+Lemma rtp_wf ex tch s s' : RTp ex tch s s' -> wf_al s'.
+Proof. intros (E&_&_&H&_). exact H. Qed.
+Lemma rtp_p002 ex tch s s' : RTp ex tch s s' -> p002 s' = p002 s.
+Proof. intros (E&_&_&_&_&H&_). exact H. Qed.
+Lemma rtp_token ex tch s s' : RTp ex tch s s' -> token s' = token s.
+Proof. intros (E&_&_&_&_&_&H&_). exact H. Qed.
+
+(* ---------- balances ---------- *)
+Lemma bal_read_fst a s : fst (bal_read a s) = fst (s_getdata (token s) (erckey a) (ensure true (token s) s)).
+Proof. unfold bal_read. destruct (s_getdata _ _ _). reflexivity. Qed.
+
+Lemma rtp_bal_read ex tch a s : wf_al s -> RTp ex tch s (fst (bal_read a s)).
+Proof.
+  intros Hw. rewrite bal_read_fst.
+  pose proof (rtp_ensure ex tch true (token s) s Hw) as H1.
+  eapply rtp_trans; [exact H1|]. apply rtp_getdata. eapply rtp_wf, H1.
+Qed.
+
+Lemma loaded_bal_read a s : loaded (token s) (fst (bal_read a s)).
+Proof. rewrite bal_read_fst. apply loaded_getdata, loaded_ensure_true. Qed.
+
+Lemma loaded_bal_read_other b a s : loaded b s -> loaded b (fst (bal_read a s)).
+Proof. intros H. rewrite bal_read_fst. apply loaded_getdata, loaded_ensure_other, H. Qed.
+
+Lemma rtp_bal_write ex tch a n s :
+  wf_al s -> p002 s = true -> loaded (token s) s -> RTp ex tch s (bal_write a n s).
+Proof. intros Hw Hp Hl. unfold bal_write. rewrite Hp. apply rtp_setdata; auto. Qed.
+
+Lemma rtp_add_balance ex tch a n s : wf_al s -> p002 s = true -> RTp ex tch s (add_balance a n s).
+Proof.
+  intros Hw Hp. unfold add_balance.
+  pose proof (rtp_bal_read ex tch a s Hw) as H1. pose proof (loaded_bal_read a s) as Hl.
+  destruct (bal_read a s) as [s1 r]. cbn [fst] in *.
+  eapply rtp_trans; [exact H1|]. apply rtp_bal_write.
+  - eapply rtp_wf, H1.
+  - rewrite (rtp_p002 _ _ _ _ H1). exact Hp.
+  - rewrite (rtp_token _ _ _ _ H1). exact Hl.
+Qed.
+
+Lemma rtp_sub_balance ex tch a n s : wf_al s -> p002 s = true -> RTp ex tch s (fst (sub_balance a n s)).
+Proof.
+  intros Hw Hp. unfold sub_balance.
+  pose proof (rtp_bal_read ex tch a s Hw) as H1. pose proof (loaded_bal_read a s) as Hl.
+  destruct (bal_read a s) as [s1 r]. cbn [fst] in *.
+  destruct (r <? n); cbn [fst]; [exact H1|].
+  eapply rtp_trans; [exact H1|]. apply rtp_bal_write.
+  - eapply rtp_wf, H1.
+  - rewrite (rtp_p002 _ _ _ _ H1). exact Hp.
+  - rewrite (rtp_token _ _ _ _ H1). exact Hl.
+Qed.
+
+Lemma rtp_set_balance ex tch a n s : wf_al s -> RTp ex tch s (set_balance a n s).
+Proof.
+  intros Hw. unfold set_balance.
+  pose proof (rtp_ensure ex tch true (token s) s Hw) as H1.
+  eapply rtp_trans; [exact H1|]. apply rtp_setdata; [eapply rtp_wf, H1 | apply loaded_ensure_true].
+Qed.
+
+(* ---------- tokens kept in the account's own storage ---------- *)
+Lemma ft_read_fst a s : fst (ft_read a s) = fst (s_getdata a ftkey s).
+Proof. unfold ft_read. destruct (s_getdata _ _ _). reflexivity. Qed.
+
+Lemma rtp_ft_set ex tch a (vf : option N -> bytes) s :
+  wf_al s -> loaded a s ->
+  RTp ex tch s (let '(s2, raw) := ft_read a s in s_setdata a ftkey (vf raw) s2).
+Proof.
+  intros Hw Hl. pose proof (rtp_getdata ex tch a ftkey s Hw) as H1. pose proof (loaded_getdata a a ftkey s Hl) as Hl1.
+  rewrite <- ft_read_fst in *. destruct (ft_read a s) as [s2 raw]. cbn [fst] in *.
+  eapply rtp_trans; [exact H1|]. apply rtp_setdata; [eapply rtp_wf, H1 | exact Hl1].
+Qed.
